@@ -220,6 +220,19 @@ fn inputs(ctx: &Ctx) -> (Vec<String>, String) {
             nprobe += 1;
         }
     }
+    // numbers at and just above 2^64 wherever the parser reads a decimal
+    for n in ["18446744073709551616", "18446744073709551617", "18446744073709551619", "18446744073709551620", "99999999999999999999", "184467440737095516150", "340282366920938463463374607431768211456"] {
+        for t in ["a{N}", "a{1,N}", "a{N,}", "a{N,N}", "(a)\\N", "(a)\\k<N>", "(a)(?(N)b|c)", "(?<n>a)(?P=N)", "(a)\\g<N>", "(a)\\k<-N>", "(?x) a { N }"] {
+            v.push(t.replace("N", n));
+            nprobe += 1;
+        }
+    }
+    // the automata engine's own limits must stay in force for delegated pieces: an eager DFA that
+    // would be exponential, NFAs beyond the size limit (wrapped route and inside VM programs)
+    for t in ["[ab]*a[ab]{14}", "[ab]*a[ab]{17}", "[ab]*a[ab]{20}", "(?=a)[ab]*a[ab]{18}", "(a)\\1[ab]*a[ab]{19}", "\\w{150}", "\\w{300}", "\\w{1000}", "(a)\\1\\w{300}", "(?:\\w{50}){20}", "(?i)(?:\\pL{40}){40}", "(?<=b)\\w{700}"] {
+        v.push(t.to_string());
+        nprobe += 1;
+    }
     for k in [100usize, 10_000, 200_000] {
         v.push("a".repeat(k));
         v.push("a|".repeat(k));
@@ -229,7 +242,7 @@ fn inputs(ctx: &Ctx) -> (Vec<String>, String) {
         v.push("(a)".repeat(k.min(10_000)));
         nprobe += 6;
     }
-    desc.push_str(&format!(" ({} exhaustive inputs); {} seeded random sequences of 5-40 tokens; {} valid generated patterns and {} single-token mutations of them (delete / duplicate / transpose / insert); {} deep-nesting, length and size-arithmetic probes (up to 100000 nested openers, 200000 repeated atoms, counts of 2^32 / 2^63 / 2^64-1 in conditions, branches, look-behinds, nested repeats)", n_exh, nrand, valid.len(), nmut, nprobe));
+    desc.push_str(&format!(" ({} exhaustive inputs); {} seeded random sequences of 5-40 tokens; {} valid generated patterns and {} single-token mutations of them (delete / duplicate / transpose / insert); {} deep-nesting, length and size-arithmetic probes (up to 100000 nested openers, 200000 repeated atoms, counts of 2^32 / 2^63 / 2^64-1 in conditions, branches, look-behinds, nested repeats; decimals of 2^64 .. 2^64+4, 10^20-1, 10*2^64, 2^128 in 11 positions; 12 patterns whose delegated piece is held back only by the automata engine's NFA / DFA size limits)", n_exh, nrand, valid.len(), nmut, nprobe));
     (v, desc)
 }
 
